@@ -149,4 +149,37 @@ theorem maxOffset_insertAt : ∀ (ds : List (Nat × Nat)) (i : Nat) (d : Nat × 
       simp only [insertAt, maxOffset] at *
       omega
 
+/-! ### Reversing the dimension order (`transposed`, `transpose`) -/
+
+theorem valid_append : ∀ (a b : List (Nat × Nat)) (x y : List Nat), ValidIdx a x → ValidIdx b y →
+    ValidIdx (a ++ b) (x ++ y) ∧ offset (a ++ b) (x ++ y) = offset a x + offset b y := by
+  intro a b x y hx hy
+  induction hx with
+  | nil => exact ⟨hy, by simp [offset]⟩
+  | @cons size stride i ds is hlt _ ih =>
+    obtain ⟨v, o⟩ := ih
+    exact ⟨.cons hlt v, by simp only [List.cons_append, offset, o]; omega⟩
+
+theorem valid_reverse {d : List (Nat × Nat)} {j : List Nat} (h : ValidIdx d j) :
+    ValidIdx d.reverse j.reverse ∧ offset d.reverse j.reverse = offset d j := by
+  induction h with
+  | nil => exact ⟨.nil, rfl⟩
+  | @cons size stride i ds is hlt _ ih =>
+    obtain ⟨v, o⟩ := ih
+    have h1 : ValidIdx [(size, stride)] [i] := .cons hlt .nil
+    obtain ⟨v', o'⟩ := valid_append _ _ _ _ v h1
+    simp only [List.reverse_cons]
+    exact ⟨v', by rw [o', o]; simp only [offset]; omega⟩
+
+/-- A view whose last addressed element lies below `B` ends below `B`. -/
+theorem stop_le_of_bounded {dimsV : List (Nat × Nat)} {start B : Nat}
+    (h : ∀ j, ValidIdx dimsV j → start + offset dimsV j < B) (hz : hasZero dimsV = false) :
+    start + minDataLen dimsV ≤ B := by
+  obtain ⟨v, o⟩ := valid_last dimsV hz
+  have := h _ v
+  unfold minDataLen
+  rw [hz]
+  simp only [Bool.false_eq_true, if_false]
+  omega
+
 end RtenVerif.TensorBounds
